@@ -67,13 +67,14 @@ int run(const Args &args, const std::vector<Level<Case>> &levels, const std::fun
           // (e.g. the worker only died of the per-case timer) contributes those violations instead
           int repro = 0; std::string err, how, out; std::vector<std::string> reported;
           vf::J cj = vf::jparse(ci.casejson); Case c = Case::from(cj);
-          for (int k = 0; k < 2; k++) {
+          bool was_timeout = ci.how == "timeout";  // a hang is re-run alone once with twice the limit, a crash twice with five times
+          for (int k = 0; k < (was_timeout ? 1 : 2); k++) {
             out.clear();
-            how = vf::run_isolated([&]() { vf::Stats s2; oracle(c, s2); for (auto &v : s2.viol) { std::string w = v.what; for (auto &ch : w) if (ch == '\n') ch = ' '; printf("VIOL\t%s\n", w.c_str()); } return s2.nviol ? 3 : 0; }, case_limit_s * 5, &err, &out);
+            how = vf::run_isolated([&]() { vf::Stats s2; oracle(c, s2); for (auto &v : s2.viol) { std::string w = v.what; for (auto &ch : w) if (ch == '\n') ch = ' '; printf("VIOL\t%s\n", w.c_str()); } return s2.nviol ? 3 : 0; }, case_limit_s * (was_timeout ? 2 : 5), &err, &out);
             if (how == "exit 3") { std::istringstream is(out); std::string line; while (std::getline(is, line)) if (line.rfind("VIOL\t", 0) == 0) reported.push_back(line.substr(5)); }
             else if (!how.empty()) repro++;
           }
-          if (repro == 2) {
+          if (repro == (was_timeout ? 1 : 2)) {
             if (on_confirmed_crash) on_confirmed_crash(c);
             st.violation(c.key(), "crash (" + how + ") while executing this case: " + err.substr(0, 1200), ci.casejson);
           } else if (!reported.empty()) {
